@@ -2,7 +2,10 @@
 fake zmq surface.  A *script* says for each lifecycle point what happens there (same JSON as the Lean driver's
 `c08.run` / `c18.history`):
 
-    ret | raise | exit | exit:propagate | exit:other | msg:clean | msg:error | stop
+    ret | raise | interrupt | exit | exit:propagate | exit:other | exit:base | msg:clean | msg:error | stop
+
+`interrupt` raises KeyboardInterrupt at the point, `exit:base` is the documented `self.exit(reason, SystemExit(1))`: BaseExceptions
+that are neither Exception nor Filter.Exit, which no handler of Filter.run catches.
 
 `msg:*` at recv/send with sockets present travels the real wire path: a neighbour (a real ZMQSender / ZMQReceiver on
 the fake network) calls `send_oob`, the filter's real `mq.recv` / `mq.send` polls it and zeromq.py dispatches it to
@@ -12,7 +15,7 @@ import datetime, logging, sys, threading, time as real_time
 from . import fakezmq
 
 POLICIES = ['all', 'clean', 'error', 'none']
-ACTS = ['ret', 'raise', 'exit', 'exit:propagate', 'exit:other', 'msg:clean', 'msg:error', 'stop']
+ACTS = ['ret', 'raise', 'interrupt', 'exit', 'exit:propagate', 'exit:other', 'exit:base', 'msg:clean', 'msg:error', 'stop']
 UP = 'tcp://127.0.0.1:6000'
 OUT = 'tcp://127.0.0.1:6010'
 OUT2 = 'tcp://127.0.0.1:6020'
@@ -76,9 +79,11 @@ def make_class():
             if act == 'ret': return
             h.fired.append([point, act])
             if act == 'raise': raise RuntimeError('boom@' + point)
+            if act == 'interrupt': raise KeyboardInterrupt('ctrl-c@' + point)
             if act == 'exit': self.exit('x@' + point)
             if act == 'exit:propagate': self.exit('x@' + point, Filter.PropagateError)
             if act == 'exit:other': self.exit('x@' + point, RuntimeError)
+            if act == 'exit:base': self.exit('x@' + point, SystemExit(1))
             if act == 'stop': self.stop_evt.set(); return
             if act.startswith('msg:'):
                 reason = act[4:]
@@ -151,8 +156,10 @@ def make_class():
 
 
 def ename(e):
+    """error enum: Exit | PropagateError | other (any other Exception) | base (BaseException that is neither: KeyboardInterrupt, SystemExit)"""
     n = type(e).__name__
-    return n if n in ('Exit', 'PropagateError') else 'other'
+    if n in ('Exit', 'PropagateError'): return n
+    return 'other' if isinstance(e, Exception) else 'base'
 
 
 _CLASS = {}
@@ -198,13 +205,13 @@ def run_impl(case, emitter=None):
     try:
         try:
             Scripted.run(cfg, sig_stop=False, stop_evt=ev, loop_exc=case['loop_exc'], prop_exit=case['prop'], obey_exit=case['obey'])
-            outcome = 'returns'
+            outcome = 'returns'; exc_class = None
         except BaseException as e:
-            outcome = 'raises:' + ename(e)
+            outcome = 'raises:' + ename(e); exc_class = type(e).__name__
     finally:
         M.MQ.__init__ = real_init; F.time = old_time; F.Filter.emitter = old_emitter
     obs = {'outcome': outcome, 'stop': ev.is_set(), 'log': (['ctor'] if h.flt is not None else []) + h.log,
-           'sent': list(h.sent_calls), 'fired': h.fired,
+           'sent': list(h.sent_calls), 'fired': h.fired, 'exc_class': exc_class,
            'open_socks': sum(1 for x in world.all_socks if not x.closed) - base_open, 'ctx_ref': Z.ZMQContext.context[1] - base_ref}
     # what the neighbours actually receive over the (fake) wire, through their real recv/send
     world.deliver_due()
@@ -244,8 +251,8 @@ POINTS_SIMPLE = ['init_pre', 'init_post', 'setup', 'shutdown', 'fini']
 
 def point_acts(point):
     """actions that make sense at a point (exit messages need the MQ, so not before it is built)"""
-    if point == 'init_pre': return ['raise', 'exit', 'exit:other', 'stop']
-    return ['raise', 'exit', 'exit:propagate', 'exit:other', 'msg:clean', 'msg:error', 'stop']
+    if point == 'init_pre': return ['raise', 'interrupt', 'exit', 'exit:other', 'exit:base', 'stop']
+    return ['raise', 'interrupt', 'exit', 'exit:propagate', 'exit:other', 'exit:base', 'msg:clean', 'msg:error', 'stop']
 
 
 def single_point_scripts(n_iters=2):
